@@ -32,6 +32,7 @@ Front(q) == SubSeq(q, 1, Len(q) - 1)
 \*   mem      : function <<ctx, addr>> -> word (written locations only)
 \*   hrows    : number of hasher rows used so far (next block id = hrows + 1)
 \*   cs       : control stack of decoder frames ; todo : what the next row does
+\*   lasth    : hasher registers of the last END row (a REPEAT row copies them)
 \*   status   : "run" | "halted"
 
 B0(vm) == Len(vm.stack)
@@ -291,7 +292,9 @@ Cont(vm, env, prog) ==
     [] fr.k = "loop" ->
          IF fr.entered = 0 THEN [ok |-> "ok", row |-> EndRow(vm, fr, 0, 0, 0), vm |-> PopFrame(vm)]
          ELSE LET c == vm.stack[1] IN
-              IF c = F1 THEN [ok |-> "ok", row |-> CtlRow("REPEAT", fr.blk, fr.nd.c[1].h \o <<F1, F0, F0, F0>>),
+              \* REPEAT: the hasher registers are copied from the previous row, the END of the loop body (its hash and
+              \* flags: is-loop-body = 1, and is-loop / is-call / is-syscall of the body block itself)
+              IF c = F1 THEN [ok |-> "ok", row |-> CtlRow("REPEAT", fr.blk, vm.lasth),
                               vm |-> [PopN(vm, 1) EXCEPT !.todo = [do |-> "start", nd |-> fr.nd.c[1], lb |-> 1]]]
               ELSE IF c = F0 THEN [ok |-> "ok", row |-> EndRow(vm, fr, 1, 0, 0), vm |-> PopFrame(PopN(vm, 1))]
               ELSE FailVm("NotBinary")
@@ -320,10 +323,11 @@ Exec(vm, env, prog) ==
        IN IF r.ok = "skip" THEN Exec(r.vm, env, prog) ELSE r
 
 \* a row costs one clock cycle
-Step(vm, env, prog) == LET r == Exec(vm, env, prog) IN IF r.ok = "ok" THEN [r EXCEPT !.vm = Tick(r.vm)] ELSE r
+Step(vm, env, prog) == LET r == Exec(vm, env, prog) IN
+                       IF r.ok = "ok" THEN [r EXCEPT !.vm = Tick(IF r.row.op = "END" THEN [r.vm EXCEPT !.lasth = r.row.h] ELSE r.vm)] ELSE r
 
 InitVm(prog, inputs, initOvf) ==
   [clk |-> 0, ctx |-> 0, fmp |-> FmpMin, insys |-> 0, fh |-> ZeroDigest,
-   stack |-> Norm(inputs), ovf |-> initOvf, mem |-> <<>>, hrows |-> 0, cs |-> <<>>,
+   stack |-> Norm(inputs), ovf |-> initOvf, mem |-> <<>>, hrows |-> 0, cs |-> <<>>, lasth |-> Zero8,
    todo |-> [do |-> "start", nd |-> prog.mast, lb |-> 0]]
 =============================================================================
